@@ -178,6 +178,13 @@ func genMapFamilies(g genCfg, c ContainerKind, level int, full bool) []*MapScen 
 		add(&MapScen{Rel: RelDD, NKeys: 2, Init: []int{0, 1}, Table: TGrowArmed, Cycled: true, Threads: [][]MIn{{on(opStore, 0)}, {on(b, 1)}}, ExpectGrow: true})
 		add(&MapScen{Rel: RelDD, NKeys: 2, Init: []int{1, 1}, Table: TShrinkArmed, Cycled: true, Threads: [][]MIn{{on(opDelete, 0)}, {on(b, 1)}}, ExpectShrink: true})
 	}
+	// F14: a grow-only map (fresh, and grown before): Clear still empties it, deletes never shrink it
+	for _, cyc := range []bool{false, true} {
+		for _, b := range []MIn{opLoad, opStore, opDelete, opLoS, opClear} {
+			add(&MapScen{Rel: RelSD, NKeys: 2, Init: []int{1, 1}, Table: TPlain, GrowOnly: true, Cycled: cyc, Threads: [][]MIn{{opClear}, {on(b, 1)}}})
+		}
+		add(&MapScen{Rel: RelSD, NKeys: 2, Init: []int{1, 1}, Table: TPlain, GrowOnly: true, Cycled: cyc, Threads: [][]MIn{{on(opDelete, 0)}, {on(opDelete, 1)}}})
+	}
 	// F6: shrink in flight. T0 removes k0 leaving its bucket empty below the shrink threshold.
 	for _, del := range removeOps {
 		if level == 0 && del.Op != MDelete {
